@@ -20,7 +20,7 @@ COMPONENTS = dict(real=["Doist.ado", "Doist.do", "AsyncTimer (constructed)", "as
 ASSUMPTIONS = ["non-real-time mode only (the property's scope)", "noise tasks do not touch hio objects"]
 PROBES = ["ready_batch_permuted", "raise_compared", "limit_compared", "kbint_compared", "extend_remove_compared"]
 BOUNDS = c01.BOUNDS
-TIERS = dict(quick=dict(cases=12000, wall=40.0), thorough=dict(cases=600000, wall=420.0))
+TIERS = dict(quick=dict(cases=20000, wall=60.0), thorough=dict(cases=600000, wall=420.0))
 
 
 def run_case(tape, tier):
